@@ -20,11 +20,11 @@ import (
 // verifPair is a mirrored composite over two model replicas, the real local
 // replicator in both directions, and a chosen alternation state.
 type verifPair struct {
-	objs   []verifstub.Object
-	a, b   *verifstub.Model
-	ba     *mirroredBlobAccess
-	first  *verifstub.Model // replica the next Get consults first
-	second *verifstub.Model
+	objs                  []verifstub.Object
+	a, b                  *verifstub.Model
+	ba                    *mirroredBlobAccess
+	first                 *verifstub.Model // replica the next Get consults first
+	second                *verifstub.Model
 	firstName, secondName string
 	// presence before the operation (symbolic terms)
 	preA, preB []bool
@@ -118,7 +118,33 @@ func verifGetOnce(ctx context.Context, p *verifPair) {
 	pF, pS := p.pre(first, k), p.pre(second, k)
 	fF, fS, fP := first.FailGet, second.FailGet, first.FailPut
 
-	data, err := p.ba.Get(ctx, d).ToByteSlice(100)
+	var data []byte
+	var err error
+	chunked, repairedAtEOF := false, false
+	if vnd.Choose(2) == 0 {
+		data, err = p.ba.Get(ctx, d).ToByteSlice(100)
+	} else {
+		// chunked consumption: the read is complete when Read reports io.EOF; the repair of
+		// the first replica must have finished by then
+		vnd.Cover("get-chunked")
+		chunked = true
+		r := p.ba.Get(ctx, d).ToChunkReader(0, 2)
+		for i := 0; i < 10; i++ {
+			var c []byte
+			c, err = r.Read()
+			data = append(data, c...)
+			if err != nil {
+				break
+			}
+		}
+		if err == io.EOF {
+			err = nil
+			// the end of the stream is the completion report: sample the repair's effect now,
+			// before Close gives the background task another chance to finish
+			repairedAtEOF = first.Present[k]
+		}
+		r.Close()
+	}
 
 	// The alternation advanced by exactly one.
 	vnd.Assert(len(first.Calls) >= 1 && first.Calls[0].Op == "Get", "the replica whose turn it is was not consulted first")
@@ -159,6 +185,9 @@ func verifGetOnce(ctx context.Context, p *verifPair) {
 		vnd.Cover("get-repaired")
 		vnd.Assert(err == nil, "Get failed although the second replica holds the object and nothing fails")
 		vnd.Assert(first.Present[k], "after a successful read-through the replica consulted first still lacks the object")
+		if chunked {
+			vnd.Assert(repairedAtEOF, "the read reported the end of the stream before the copy to the replica consulted first had finished")
+		}
 		vnd.Assert(first.CountCalls("Put") == 1 && second.CountCalls("Put") == 0, "repair did not write exactly once, to the replica consulted first")
 		vnd.Assert(len(first.PutIdx) == 1 && first.PutIdx[0] == k, "repair stored a different object")
 	}
@@ -397,4 +426,36 @@ func Verif_C11_M3_FindMissing() {
 	}
 	vnd.Assert(vnd.Iff(p.a.Present[n], p.preA[n]) && vnd.Iff(p.b.Present[n], p.preB[n]), "object outside the query was touched")
 	vnd.Observe("fm", uint64(status.Code(err)), uint64(missing.Length()), uint64(p.a.PutOK), uint64(p.b.PutOK))
+}
+
+// Verif_C11_M5_ChunkedReadRepairSchedules: a read-repairing Get consumed as a chunk
+// stream while the copy to the first replica runs in its own goroutine, under all
+// schedules with at most two preemptions: when the reader is told that the stream
+// has ended, the replica consulted first holds the object.
+//
+// symgo: maxpaths=400000
+func Verif_C11_M5_ChunkedReadRepairSchedules() {
+	vnd.ExploreSchedules(true)
+	ctx := context.Background()
+	p := verifNewPair(1, true)
+	p.a.BufferKind, p.b.BufferKind = verifstub.KindStream, verifstub.KindStream
+	// the first replica lacks the object, the second holds it, nothing fails
+	vnd.Assume(!p.first.Present[0] && p.second.Present[0])
+	vnd.Assume(!p.a.FailGet && !p.a.FailPut && !p.a.FailFindMissing && !p.b.FailGet && !p.b.FailPut && !p.b.FailFindMissing)
+	r := p.ba.Get(ctx, p.objs[0].Digest).ToChunkReader(0, 1+vnd.Choose(2))
+	var data []byte
+	var err error
+	for i := 0; i < 10; i++ {
+		var c []byte
+		c, err = r.Read()
+		data = append(data, c...)
+		if err != nil {
+			break
+		}
+	}
+	vnd.Assert(err == io.EOF, "read-repairing Get failed although nothing fails")
+	vnd.Assert(p.first.Present[0], "the read reported the end of the stream before the copy to the replica consulted first had finished")
+	r.Close()
+	vnd.Assert(string(data) == string(p.objs[0].Data), "Get returned content other than the object's")
+	vnd.Cover("repaired-at-eof")
 }
